@@ -14,7 +14,7 @@ RULE = ('every ordered selection of <= K of the equations {X=f(Y), X=g(Y,Z), Y=h
         'findall/3 and through assertz + later read-back. At the innermost point get_value of X,Y,Z must be the fully '
         'dereferenced reference term (no bound variable anywhere inside), to_python must equal the reference value at '
         'every depth; the saved get_value results must be structurally unchanged after all generators are closed / '
-        'the query has finished (the [v.get_value() for _ in q] idiom). (3) bind/undo histories: every sequence of <= D operations "unify one of 11 equations (variable-variable links, structures, list cells with variable tails)" / "undo the most recent unification" with get_value of ALL variables taken after every operation (a lookup is itself an operation: it must not change what later lookups see) compared with the stack of active substitutions. states = distinct (sequence outcome) '
+        'the query has finished (the [v.get_value() for _ in q] idiom). (3) bind/undo histories: every sequence of <= D operations "unify one of 11 equations (variable-variable links, structures, list cells with variable tails)" / "undo the most recent unification" with get_value of ALL variables taken after every operation (a lookup is itself an operation: it must not change what later lookups see) compared with the stack of active substitutions; at the end of every history the lookups are also run under every recursion limit from the current stack depth upwards (RecursionError at every depth of the dereferencing) and must afterwards give the same values. states = distinct (sequence outcome) '
         'observations; transitions = generator steps on the real engine; non-trivial = the value of X contains a '
         'variable that was bound after X')
 ASSUMPTIONS = ['sequences needing a cyclic term are skipped', 'to_python of a partial list is unspecified and not compared']
